@@ -4,6 +4,7 @@ import StrumModel.Display
 import StrumModel.Iter
 import StrumModel.Repr
 import StrumModel.Message
+import StrumModel.Table
 /-
 Dispatch of `op` lines to the model. One answer line per op.
 -/
@@ -126,6 +127,59 @@ def showMatchOut (o : MatchOut Bytes) : String :=
   | .val (some b) => encodeStr b
   | .val none => "-"
   | .nonExhaustive => "CE:nonExhaustive"
+
+def declIndex (d : EnumDef) (k : Bytes) : Int := ((d.variants.map (·.ident)).idxOf k : Nat)
+
+/-- interpret a table history; `none` = panic -/
+def runTableHistory (d : EnumDef) (t : TableImpl) : TableVal Int → List String → Option (List String)
+  | _, [] => some []
+  | tv, tok :: toks =>
+    match tok.splitOn ":" with
+    | ["new"] =>
+      let tv' := t.new ((List.range t.keys.length).map (fun (i : Nat) => (1000 + (i : Int))))
+      (runTableHistory d t tv' toks).map ("ok" :: ·)
+    | ["filled", x] =>
+      match x.toInt? with
+      | none => some ["bad-tok"]
+      | some x => (runTableHistory d t (t.filled x) toks).map ("ok" :: ·)
+    | ["closure"] =>
+      (runTableHistory d t (t.fromClosure (fun k => 100 + 7 * declIndex d k)) toks).map ("ok" :: ·)
+    | ["transform"] =>
+      (runTableHistory d t (t.transform tv (fun k old => old * 3 + declIndex d k)) toks).map ("ok" :: ·)
+    | ["set", k, x] =>
+      match decodeStr k, x.toInt? with
+      | some k, some x =>
+        match t.set tv k x with
+        | none => none
+        | some tv' => (runTableHistory d t tv' toks).map ("ok" :: ·)
+      | _, _ => some ["bad-tok"]
+    | ["get", k] =>
+      match decodeStr k with
+      | none => some ["bad-tok"]
+      | some k =>
+        match t.index tv k with
+        | none => none
+        | some x => (runTableHistory d t tv toks).map (toString x :: ·)
+    | ["dump"] =>
+      (runTableHistory d t tv toks).map (String.intercalate "/" ("dump" :: tv.map toString) :: ·)
+    | ["all", mask] =>
+      let opt : TableVal (Option Int) := (tv.zip mask.toList).map (fun p => if p.2 = '1' then some p.1 else none)
+      let r := match tableAll opt with
+        | none => "none"
+        | some l => String.intercalate "/" ("some" :: l.map toString)
+      (runTableHistory d t tv toks).map (r :: ·)
+    | ["allok", mask] =>
+      let res : TableVal (Except Int Int) :=
+        ((tv.zip mask.toList).zipIdx).map (fun p => if p.1.2 = '1' then .ok p.1.1 else .error (p.2 : Int))
+      let r := match tableAllOk res with
+        | .error e => "err/" ++ toString e
+        | .ok l => String.intercalate "/" ("ok" :: l.map toString)
+      (runTableHistory d t tv toks).map (r :: ·)
+    | _ => some ["bad-tok"]
+
+def showTableErr : TableErr → String
+  | .nonUnit => "CE:nonUnit"
+  | .noVariants => "CE:noVariants"
 
 def runOp (d : EnumDef) (args : List String) : String :=
   match args with
@@ -271,6 +325,49 @@ def runOp (d : EnumDef) (args : List String) : String :=
       "str=" ++ (match getProp .str d v.ident key with | some (.str s) => encodeStr s | _ => "-") ++
       " int=" ++ (match getProp .int d v.ident key with | some (.int i) => toString i | _ => "-") ++
       " bool=" ++ (match getProp .bool d v.ident key with | some (.bool b) => (if b then "1" else "0") | _ => "-")
+    | _, _ => "bad-op"
+  | "table" :: toks =>
+    match genTable d with
+    | .error e => showTableErr e
+    | .ok t =>
+      match runTableHistory d t (t.filled 0) toks with
+      | none => "PANIC"
+      | some outs => String.intercalate " " outs
+  | ["tablefields"] =>
+    match genTable d with
+    | .error e => showTableErr e
+    | .ok t => String.intercalate " " (t.fields.map encodeStr)
+  | ["is", k] =>
+    match findVariant d k with
+    | none => "bad-op"
+    | some v =>
+      let e : EnumVal Nat := ⟨v.ident, []⟩
+      let names := ((isMethods d).filter (fun m => isEval m e)).map (fun m => encodeStr m.1)
+      "true=" ++ (if names.isEmpty then "-" else String.intercalate "," names)
+  | ["absent"] =>
+    -- methods that must not exist: is_* of disabled variants, try_as_* of disabled or non-tuple variants
+    let isAbs := (d.variants.filter (·.disabled)).map (fun v => [105, 115, 95] ++ snakify v.ident)
+    let taAbs := (d.variants.filter (fun v => v.disabled || (match v.fields with | .tuple _ => false | _ => true))).flatMap
+      (fun v => let b := [116, 114, 121, 95, 97, 115, 95] ++ snakify v.ident
+                [b, b ++ [95, 114, 101, 102], b ++ [95, 109, 117, 116]])
+    String.intercalate " " ((isAbs ++ taAbs).map (fun n => encodeStr n ++ "=absent"))
+  | ["ismethods"] => String.intercalate " " ((isMethods d).map (fun m => encodeStr m.1 ++ ":" ++ encodeStr m.2))
+  | ["tryasmethods"] =>
+    String.intercalate " " ((tryAsMethods d).map (fun m => encodeStr m.1 ++ ":" ++ encodeStr m.2.1 ++ ":" ++ toString m.2.2))
+  | ["tryas", k, alt] =>
+    match findVariant d k, alt.toNat? with
+    | some v, some alt =>
+      let e : EnumVal Nat := ⟨v.ident, List.replicate v.fields.arity alt⟩
+      let showFields (tag : String) (l : List Nat) : String := String.intercalate "/" (tag :: l.map toString)
+      String.intercalate " " ((tryAsMethods d).map (fun m =>
+        let r := match tryAsEval m e with
+          | none => "none"
+          | some fs => showFields "some" fs
+        let e2 := tryAsMutWrite m e (List.replicate m.2.2 2)
+        let w := match tryAsEval m e with
+          | none => "none"
+          | some _ => showFields "wrote" e2.fields
+        encodeStr m.1 ++ ":val=" ++ r ++ ":ref=" ++ r ++ ":mut=" ++ w))
     | _, _ => "bad-op"
   | ["nooverlap"] => if noOverlapB d then "1" else "0"
   | ["spellings", k] =>
